@@ -2,6 +2,14 @@
    case:   meta <hexblock> <hexkey>,<hexkey>,...
    output: it=<t>:<v>;... len=<n> q=<t>:<v>,...      (offsets from the block start, -1 = NULL)
            OOB if the model reads outside the block *)
+(* the C string at an offset of the block (what a returned pointer leads to) *)
+let cstr_at (whole : z list) (o : int) : string =
+  if o < 0 then "~" else begin
+    let rec drop n l = if n = 0 then l else match l with [] -> [] | _ :: t -> drop (n - 1) t in
+    let rec upto l = match l with [] -> [] | c :: t -> if int_of_z c = 0 then [] else c :: upto t in
+    hex_of_bytes (upto (drop o whole))
+  end
+
 let () = each_line (fun line ->
   match String.split_on_char ' ' line with
   | "meta" :: hb :: hk :: _ ->
@@ -20,9 +28,15 @@ let () = each_line (fun line ->
                | None -> "OOB"
                | Some it -> Printf.sprintf "%d:%d" (int_of_z (off whole it.title))
                               (match it.title with Null -> -1 | At _ -> int_of_z (off whole it.value))) keys in
-           Printf.sprintf "it=%s len=%d q=%s"
+           let ents = List.map (fun (t,v) ->
+               cstr_at whole (int_of_z t) ^ (if int_of_z v < 0 then "" else "=" ^ cstr_at whole (int_of_z v))) ps in
+           let qvs = List.map (fun k -> match find p k with
+               | None -> "OOB"
+               | Some it -> (match it.title with Null -> "~" | At _ ->
+                   (match it.value with Null -> "~" | At _ -> cstr_at whole (int_of_z (off whole it.value))))) keys in
+           Printf.sprintf "it=%s len=%d q=%s ent=%s qv=%s"
              (String.concat ";" (List.map (fun (t,v) -> Printf.sprintf "%d:%d" (int_of_z t) (int_of_z v)) ps))
-             (int_of_z n) (String.concat "," qs)
+             (int_of_z n) (String.concat "," qs) (String.concat ";" ents) (String.concat "," qvs)
          | _ -> "OOB")
     in print_endline out
   | _ -> print_endline "BADCASE")
